@@ -165,8 +165,10 @@ pub fn dealias_id(resolve: &Resolve, mut id: TypeId) -> TypeId {
 /// function of direction `import` (see `imported_types_used_by_exported_interfaces`
 /// in the generator's README-level behaviour: an exported interface re-defines
 /// its own types; everything else it mentions is the imported one).
-pub fn resource_is_exported(resolve: &Resolve, world: WorldId, func_import: bool, rid: TypeId) -> bool {
-    if func_import {
+pub fn resource_is_exported(resolve: &Resolve, world: WorldId, func_import: bool, world_level: bool, rid: TypeId) -> bool {
+    // a world-level function sees interface types through `use`, which always
+    // denotes the *imported* instance of that interface
+    if func_import || world_level {
         return false;
     }
     let rid = dealias_id(resolve, rid);
@@ -348,6 +350,8 @@ pub struct Binding {
     /// every other import symbol found in the `.c` file that is not accounted for
     pub stray_imports: Vec<CSym>,
     pub world_notes: Vec<String>,
+    /// type ids reachable from the world's imports / exports
+    pub sides: (BTreeSet<TypeId>, BTreeSet<TypeId>),
 }
 
 pub struct Learner<'a> {
@@ -361,6 +365,8 @@ pub struct Learner<'a> {
     index: HashMap<String, usize>,
     resources: Vec<ResPlan>,
     cur_ctx: String,
+    cur_world_level: bool,
+    own_types: BTreeSet<String>,
 }
 
 type R<T> = Result<T, String>;
@@ -380,7 +386,7 @@ impl<'a> Learner<'a> {
         if opts.utf16 {
             abi.enc = cabi_ref::StringEncoding::Utf16;
         }
-        Learner { resolve, world, hdr, csrc, opts, abi, types: vec![], index: HashMap::new(), resources: vec![], cur_ctx: String::new() }
+        Learner { resolve, world, hdr, csrc, opts, abi, types: vec![], index: HashMap::new(), resources: vec![], cur_ctx: String::new(), cur_world_level: false, own_types: BTreeSet::new() }
     }
 
     fn find_import(&self, module: &str, name: &str) -> Option<&'a CSym> {
@@ -439,7 +445,7 @@ impl<'a> Learner<'a> {
     }
 
     fn res_plan_for(&self, func_import: bool, rid: TypeId) -> R<usize> {
-        let exported = resource_is_exported(self.resolve, self.world, func_import, rid);
+        let exported = resource_is_exported(self.resolve, self.world, func_import, self.cur_world_level, rid);
         let id = dealias_id(self.resolve, rid);
         let found = self.resources.iter().find(|r| r.r.id == id && r.r.exported == exported);
         match found {
@@ -701,7 +707,7 @@ impl<'a> Learner<'a> {
     fn contains_rep_borrow(&self, ty: &Type, import: bool) -> bool {
         match self.abi.dealias(ty) {
             Type::Id(id) => match &self.resolve.types[id].kind {
-                TypeDefKind::Handle(Handle::Borrow(r)) => resource_is_exported(self.resolve, self.world, import, *r),
+                TypeDefKind::Handle(Handle::Borrow(r)) => resource_is_exported(self.resolve, self.world, import, self.cur_world_level, *r),
                 TypeDefKind::Handle(_) => false,
                 TypeDefKind::Record(r) => r.fields.iter().any(|f| self.contains_rep_borrow(&f.ty, import)),
                 TypeDefKind::Tuple(t) => t.types.iter().any(|t| self.contains_rep_borrow(t, import)),
@@ -800,7 +806,7 @@ impl<'a> Learner<'a> {
                     .hdr
                     .protos
                     .values()
-                    .filter(|q| q.params.len() == 1 && q.params[0].0.ptr == 0 && q.params[0].0.base == p.own_ctype && q.ret.ptr == 0 && q.ret.base != p.own_ctype && self.is_handle_struct(&q.ret.base))
+                    .filter(|q| q.params.len() == 1 && q.params[0].0.ptr == 0 && q.params[0].0.base == p.own_ctype && q.ret.ptr == 0 && !self.own_types.contains(&q.ret.base) && self.is_handle_struct(&q.ret.base))
                     .collect();
                 if cands.len() != 1 {
                     return Err(format!("{} candidates for the own->borrow converter", cands.len()));
@@ -873,6 +879,7 @@ impl<'a> Learner<'a> {
             ret: RetPlan::Void,
         };
         self.cur_ctx = format!("{}:{}", if fr.import { "import" } else { "export" }, fr.module);
+        self.cur_world_level = fr.iface.is_none();
         let r: R<()> = (|| {
             let f = &fr.func;
             let wasm = if fr.import {
@@ -1009,6 +1016,14 @@ impl<'a> Learner<'a> {
 
     pub fn learn(mut self) -> Binding {
         let rs = enumerate_resources(self.resolve, self.world);
+        // every `*_drop_own(T handle)` prototype names an own-handle type
+        self.own_types = self
+            .hdr
+            .protos
+            .values()
+            .filter(|p| p.name.ends_with("_drop_own") && p.params.len() == 1 && p.params[0].0.ptr == 0 && p.ret.is_void())
+            .map(|p| p.params[0].0.base.clone())
+            .collect();
         self.resources = rs.iter().map(|r| self.learn_resource(r)).collect();
         let frs = enumerate(self.resolve, self.world);
         let mut funcs = vec![];
@@ -1042,7 +1057,8 @@ impl<'a> Learner<'a> {
         if !self.csrc.unparsed.is_empty() {
             notes.push(format!("{} attributed C declarations not parsed", self.csrc.unparsed.len()));
         }
-        Binding { funcs, types: self.types, resources: self.resources, link_syms: self.csrc.link_syms.clone(), stray_imports: stray, world_notes: notes }
+        let sides = Binding::side_reach(self.resolve, self.world);
+        Binding { funcs, types: self.types, resources: self.resources, link_syms: self.csrc.link_syms.clone(), stray_imports: stray, world_notes: notes, sides }
     }
 }
 
@@ -1110,6 +1126,96 @@ impl Binding {
     /// `t` owns memory but has no (complete) helper *because* the only members that
     /// own memory are anonymous structural types spelled with a C name shared by
     /// several binding contexts (whose helper exists, but is not wired up).
+    /// the generator's notion of a world-shareable anonymous type: no WIT name
+    /// anywhere inside, only list/option/tuple/map/alias over primitives and strings
+    fn anon_prim(resolve: &Resolve, ty: &Type) -> bool {
+        match ty {
+            Type::Id(id) => {
+                let t = &resolve.types[*id];
+                if t.name.is_some() {
+                    return false;
+                }
+                match &t.kind {
+                    TypeDefKind::List(e) | TypeDefKind::Option(e) | TypeDefKind::Type(e) => Self::anon_prim(resolve, e),
+                    TypeDefKind::Tuple(t) => t.types.iter().all(|e| Self::anon_prim(resolve, e)),
+                    TypeDefKind::Map(k, v) => Self::anon_prim(resolve, k) && Self::anon_prim(resolve, v),
+                    _ => false,
+                }
+            }
+            Type::ErrorContext => false,
+            _ => true,
+        }
+    }
+
+    fn reach(resolve: &Resolve, ty: &Type, out: &mut BTreeSet<TypeId>) {
+        if let Type::Id(id) = ty {
+            if !out.insert(*id) {
+                return;
+            }
+            match &resolve.types[*id].kind {
+                TypeDefKind::Type(t) | TypeDefKind::List(t) | TypeDefKind::Option(t) | TypeDefKind::FixedLengthList(t, _) => Self::reach(resolve, t, out),
+                TypeDefKind::Record(r) => r.fields.iter().for_each(|f| Self::reach(resolve, &f.ty, out)),
+                TypeDefKind::Tuple(t) => t.types.iter().for_each(|t| Self::reach(resolve, t, out)),
+                TypeDefKind::Variant(v) => v.cases.iter().flat_map(|c| c.ty.iter()).for_each(|t| Self::reach(resolve, t, out)),
+                TypeDefKind::Result(r) => r.ok.iter().chain(r.err.iter()).for_each(|t| Self::reach(resolve, t, out)),
+                TypeDefKind::Map(k, v) => {
+                    Self::reach(resolve, k, out);
+                    Self::reach(resolve, v, out);
+                }
+                TypeDefKind::Future(t) | TypeDefKind::Stream(t) => t.iter().for_each(|t| Self::reach(resolve, t, out)),
+                _ => {}
+            }
+        }
+    }
+
+    /// type ids reachable from the import side / the export side of the world
+    pub fn side_reach(resolve: &Resolve, world: WorldId) -> (BTreeSet<TypeId>, BTreeSet<TypeId>) {
+        let w = &resolve.worlds[world];
+        let mut sides = (BTreeSet::new(), BTreeSet::new());
+        for (k, items) in [(0, &w.imports), (1, &w.exports)] {
+            let out = if k == 0 { &mut sides.0 } else { &mut sides.1 };
+            for (_, item) in items.iter() {
+                match item {
+                    WorldItem::Interface { id, .. } => {
+                        let i = &resolve.interfaces[*id];
+                        for (_, t) in i.types.iter() {
+                            Self::reach(resolve, &Type::Id(*t), out);
+                        }
+                        for (_, f) in i.functions.iter() {
+                            f.params.iter().for_each(|p| Self::reach(resolve, &p.ty, out));
+                            f.result.iter().for_each(|t| Self::reach(resolve, t, out));
+                        }
+                    }
+                    WorldItem::Function(f) => {
+                        f.params.iter().for_each(|p| Self::reach(resolve, &p.ty, out));
+                        f.result.iter().for_each(|t| Self::reach(resolve, t, out));
+                    }
+                    WorldItem::Type { id, .. } => Self::reach(resolve, &Type::Id(*id), out),
+                }
+            }
+        }
+        sides
+    }
+
+    /// `m` is spelled with a C name that several type ids share: either several
+    /// structurally equal anonymous types exist, or one is bound in several contexts
+    fn is_shared_anon(&self, resolve: &Resolve, m: &TypeBind) -> bool {
+        if !matches!(m.wit, Type::Id(_)) || !Self::anon_prim(resolve, &m.wit) {
+            return false;
+        }
+        if m.contexts.len() >= 2 {
+            return true;
+        }
+        if let Type::Id(id) = m.wit {
+            if self.sides.0.contains(&id) && self.sides.1.contains(&id) {
+                return true;
+            }
+        }
+        let abi = Abi::new(resolve, 8);
+        let n = resolve.types.iter().filter(|(id, t)| t.name.is_none() && Self::anon_prim(resolve, &Type::Id(*id)) && abi.shape_key(&Type::Id(*id)) == m.shape).count();
+        n >= 2
+    }
+
     fn cause_shared(&self, resolve: &Resolve, ix: &BTreeMap<String, usize>, t: &TypeBind, depth: usize) -> bool {
         if depth > 12 {
             return false;
@@ -1117,8 +1223,7 @@ impl Binding {
         let ms: Vec<&TypeBind> = self.members_of(t).iter().map(|m| &self.types[ix[m]]).filter(|m| m.has_heap).collect();
         !ms.is_empty()
             && ms.iter().all(|m| {
-                let anon = matches!(m.wit, Type::Id(id) if resolve.types[id].name.is_none());
-                (anon && m.contexts.len() >= 2 && m.free_fn.is_some()) || (m.free_fn.is_none() && self.cause_shared(resolve, ix, m, depth + 1))
+                (self.is_shared_anon(resolve, m) && m.free_fn.is_some()) || (m.free_fn.is_none() && self.cause_shared(resolve, ix, m, depth + 1))
             })
     }
 
@@ -1140,13 +1245,12 @@ impl Binding {
                 if !mt.has_heap {
                     continue;
                 }
-                let anon = matches!(mt.wit, Type::Id(id) if resolve.types[id].name.is_none());
                 match &mt.free_fn {
                     // reported on its own as `<self>`
                     None => {}
                     Some(mf) => {
                         if !body.contains(&format!("{mf}(")) {
-                            out.push(Omission { parent: t.cname.clone(), member: m.clone(), kind: "not-called", shared_anon: anon && mt.contexts.len() >= 2 });
+                            out.push(Omission { parent: t.cname.clone(), member: m.clone(), kind: "not-called", shared_anon: self.is_shared_anon(resolve, mt) });
                         }
                     }
                 }
